@@ -2,7 +2,9 @@
 # usage: tools_fixcommit.sh "<commit message>"   — runs the pinned suite on /repo's working tree, commits only if every package is ok
 export GOFLAGS=-mod=mod GOPROXY=off GOSUMDB=off GOTOOLCHAIN=local; unset GOWORK
 cd /repo || exit 2
-gofmt -l $(git diff --name-only | grep '\.go$') 2>/dev/null | sed 's/^/gofmt: /'
+files=$(git diff --name-only | grep '\.go$')
+if [ -z "$files" ]; then echo "NOT COMMITTED (working tree has no change)"; exit 1; fi
+gofmt -l $files 2>/dev/null | sed 's/^/gofmt: /'
 out=$(go test -vet=off -count=1 ./... 2>&1)
 bad=$(echo "$out" | grep -E "^(FAIL|---|panic)" | grep -v "maddy-pam-helper" | grep -v "^FAIL$")
 nok=$(echo "$out" | grep -c "^ok")
